@@ -33,7 +33,9 @@ impl<'a> CheckParams for Grammar<'a> {
             ));
         }
         let ux = x as usize;
-        if ux > self.conn_matrix().num_left() {
+        // id 0 (BOS/EOS) is taken to exist even in a grammar without a connection matrix
+        let limit = self.conn_matrix().num_left().max(1);
+        if ux >= limit {
             return Err(SudachiError::InvalidDataFormat(
                 ux,
                 format!("max grammar leftId is {}", self.conn_matrix().num_left()),
@@ -51,7 +53,9 @@ impl<'a> CheckParams for Grammar<'a> {
             ));
         }
         let ux = x as usize;
-        if ux > self.conn_matrix().num_right() {
+        // id 0 (BOS/EOS) is taken to exist even in a grammar without a connection matrix
+        let limit = self.conn_matrix().num_right().max(1);
+        if ux >= limit {
             return Err(SudachiError::InvalidDataFormat(
                 ux,
                 format!("max grammar rightId is {}", self.conn_matrix().num_right()),
